@@ -184,12 +184,13 @@ static const char* std_fp(int t) {
 enum { OP_NONE, OP_DEL, OP_DEL_RAW, OP_DEL_ROOT, OP_DEALLOC, OP_DEALLOC_RAW, OP_DEALLOC_ROOT, OP_DESTRUCT,
        OP_RESIZE_SHRINK, OP_RESIZE_GROW, OP_CONCAT, OP_APPEND, OP_PUSH, OP_POP, OP_PUSH_AT, OP_POP_AT0, OP_POP_ATLAST,
        OP_REM, OP_ASSIGN, OP_PRINT_TO,
+       OP_DROP_COLLECT,                           /* drop the only reference to a collector-managed object and force collections */
        OP_DEL_STOPPED, OP_DEL_ROOT_STOPPED,       /* del / del_root between stop(gc) and start(gc); collector-managed heap objects only, forked */
        NOPS };
 
 static const char* opname[NOPS] = { "none", "del", "del_raw", "del_root", "dealloc", "dealloc_raw", "dealloc_root", "destruct",
   "resize_shrink", "resize_grow", "concat", "append", "push", "pop", "push_at", "pop_at_first", "pop_at_last",
-  "rem", "assign", "print_to", "del-while-stopped", "del_root-while-stopped" };
+  "rem", "assign", "print_to", "drop-and-collect", "del-while-stopped", "del_root-while-stopped" };
 
 static int is_delete_op(int op) { return op >= OP_DEL && op <= OP_DEALLOC_ROOT; }
 static int is_dealloc_op(int op) { return op >= OP_DEALLOC && op <= OP_DEALLOC_ROOT; }
@@ -213,7 +214,7 @@ static int op_applies(int t, int op) {
     case OP_REM:           return type_implements_method(ty, Get, rem) && (is_seq(t) || is_map(t));
     case OP_ASSIGN:        return type_implements_method(ty, Assign, assign) && (t == T_STRING || is_seq(t) || is_map(t));
     case OP_PRINT_TO:      return t == T_STRING && type_implements_method(ty, Format, format_to);
-    case OP_DEL_STOPPED: case OP_DEL_ROOT_STOPPED: return 1;
+    case OP_DROP_COLLECT: case OP_DEL_STOPPED: case OP_DEL_ROOT_STOPPED: return 1;
   }
   return 0;
 }
@@ -323,6 +324,17 @@ static void* owned_ptr(int t, var o, size_t* nbytes) {
   return NULL;
 }
 
+static void __attribute__((noinline)) scrub_stack(void) {
+  char pad[16384];
+  memset(pad, 0, sizeof pad);
+  __asm__ volatile("" :: "r"(pad) : "memory");
+}
+
+/* enough collector-managed garbage that at least one mark + sweep runs (the registry of this harness holds a few dozen entries) */
+static void __attribute__((noinline)) allocation_burst(void) {
+  for (int i = 0; i < 400; i++) { var g = new(Int, $I(i)); (void)g; }
+}
+
 /* type_of, allocation class, magic number, every byte readable and writable */
 static int identity(struct subj* s, const char* when) {
   volatile var ty = NULL;
@@ -342,6 +354,15 @@ static int identity(struct subj* s, const char* when) {
   size_t n = size(s->type);
   volatile unsigned char* b = s->o;
   for (size_t i = 0; i < n; i++) { unsigned char c = b[i]; b[i] = c; }
+#ifndef CELLO_NGC
+  if (s->kind == K_OWN && !s->released) {
+    /* new / alloc / copy and the root variants register the object with the collector, the raw variants do not */
+    bool reg = mem(current(GC), s->o);
+    if (reg != (s->mgmt != M_RAW)) {
+      vf_violation(LAB(s, reg ? "raw-object-registered" : "not-registered-with-collector"), NULL, "%s: mem(current(GC), obj) is %s", when, reg ? "true for a raw object" : "false for a collector-managed object");
+      return 1; }
+  }
+#endif
   return 0;
 }
 
@@ -496,6 +517,27 @@ static void judge(struct subj* s, int op) {
   }
 
   /* ===== heap object made by this case ===== */
+  if (s->kind == K_OWN && op == OP_DROP_COLLECT) {
+    /* the collector takes over: every reference the harness holds is dropped, then collections are forced.  Whether the
+       conservative scan still sees a stale copy of the pointer is not ours to say - only: nothing raises out of a
+       collection, and if the block is released it is released once, together with what it owns. */
+    al_begin(); al_tracked(block); al_tracked(own);
+    s->o = NULL; CUR = NULL; s->released = 1;
+    scrub_stack();
+    al_start();
+    e = VF_CATCH(allocation_burst());
+    al_stop();
+    int nf = al_count(block, 0);
+    if (e) { mark_nontrivial(); vf_violation(LAB(s, "collection-raises"), NULL, "a collection after the object became unreachable raised %s", vf_exc_name(e)); return; }
+    if (nf > 1 || al_count(block, 1)) { vf_violation(LAB(s, "released-twice"), NULL, "the collector passed the object's block to free %d times", nf); return; }
+    if (nf == 1) {
+      mark_nontrivial();
+      if (own && al_count(own, 0) != 1) { vf_violation(LAB(s, "owned-buffer-free-count"), NULL, "the collector released the object but what it owns reached free %d times", al_count(own, 0)); return; }
+      if (s->t == T_RT && rt_dtor - d0 != 1) { vf_violation(LAB(s, "destructor-count"), NULL, "the collector ran the destructor %" PRId64 " times", rt_dtor - d0); return; }
+      n_released++; outcome(s, "reclaimed-by-collection");
+    } else outcome(s, "not-reclaimed-yet");
+    return;
+  }
   if (s->kind == K_OWN) {
     int destructed = 0;
     if (is_delete_op(op)) {
@@ -744,6 +786,30 @@ static void subj_init(struct subj* s, var o, int t, int cls, int kind) {
   s->o = o; s->t = t; s->type = TY(t); s->cls = cls; s->kind = kind; s->expect = std_fp(t);
 }
 
+static void finish_own(struct subj* s);
+static void judge(struct subj* s, int op);
+static int probe_only;          /* forked child that only finds out whether copy() of this kind of original works */
+
+/* copy(orig): the copy is a collector-managed heap object of its own, whatever the original's allocation class */
+static void copy_and_judge(struct subj* s, var orig, int t, int op) {
+  volatile var cp = NULL;
+  var e = VF_CATCH(cp = copy(orig));
+  CUR = cp;
+  if (probe_only) _exit((e || !cp) ? 15 : 0);
+  if (e || !cp) {
+    /* Range, Slice, Zip (Assign needs a constructed target), Type (by design): no object to judge */
+    n_copy_unavailable++; vf.evaluations++;
+    if (in_child) _exit(15);
+    return;
+  }
+  int same = cp == orig;
+  cp = NULL;                                      /* the root slot CUR is the only reference the harness keeps */
+  subj_init(s, CUR, t, AllocHeap, K_OWN); s->mgmt = M_GC;
+  if (same) { vf_violation(LAB(s, "copy-is-the-original"), NULL, "copy returned the object it was given"); CUR = NULL; return; }
+  judge(s, op);
+  finish_own(s);
+}
+
 static void finish_own(struct subj* s) {
   if (!s->released) release_own(s, 0);
   CUR = NULL;
@@ -816,23 +882,46 @@ static void run_case(int src, int t, int v, int op) {
     finish_own(&s);
     break; }
   case S_COPY: {
-    volatile var cp = NULL; var e;
+    /* c: where the original lives - 0 heap, 1 $ stack literal, 2/3 element of an Array/List, 4/5 value of a Table/Tree,
+       6/7 key of a Table/Tree, 8 static object.  The copy is always a collector-managed heap object of its own. */
     struct Box* stackbox = $B(NULL);           /* a Box owns its target: the original is a stack Box that is never destructed */
-    if (t == T_BOX) { stackbox->val = new(Int, $I(9)); AUX = stackbox; }
-    else { AUX = new_with(TY(t), args_for(t)); }
-    e = VF_CATCH(cp = copy(AUX));
-    CUR = cp;
-    if (e || !cp) {
-      /* Range, Slice, Zip (Assign needs a constructed target), Type (by design): no object to judge */
-      n_copy_unavailable++; vf.evaluations++;
-      if (in_child) _exit(15);
+    var orig = NULL;
+#define CPY(expr) do { orig = (expr); copy_and_judge(&s, orig, t, op); } while (0)
+    if (c == 0) {
+      if (t == T_BOX) { stackbox->val = new(Int, $I(9)); CPY(stackbox); }
+      else { AUX = new_with(TY(t), args_for(t)); CPY(AUX); { var e2 = VF_CATCH(del(AUX)); (void)e2; } AUX = NULL; }
+    } else if (c == 1) {
+      switch (t) {
+        case T_INT: CPY($I(7)); break;
+        case T_FLOAT: CPY($F(2.5)); break;
+        case T_STRING: CPY($S("abc")); break;
+        case T_REF: CPY($R(K[5])); break;
+        case T_BOX: stackbox->val = new(Int, $I(9)); CPY(stackbox); break;
+        case T_TUPLE: CPY(tuple(K[1], K[2], K[3])); break;
+        case T_RANGE: CPY(range(K[5])); break;
+        case T_SLICE: CPY(slice(PA, $I(1))); break;
+        case T_ZIP: CPY(zip(PA, PA)); break;
+        case T_FILTER: CPY(filter(PA, FnTrue)); break;
+        case T_MAP: CPY(map(PA, FnIdent)); break;
+        case T_FILE: CPY($(File, NULL)); break;
+        case T_FUNCTION: CPY($(Function, fn_ident)); break;
+        case T_PLAIN: CPY($(Plain, 3, 4)); break;
+        case T_RT: CPY($(RT, 3, 4)); break;
+      }
+    } else if (c == 2 || c == 3) {
+      var cont = mk_seq(c == 2 ? T_ARRAY : T_LIST, t, 3, 1);
+      CPY(get(cont, $I(1)));
+      finish_cont();
+    } else if (c >= 4 && c <= 7) {
+      int ct = (c & 1) ? T_TREE : T_TABLE, iskey = c >= 6;
+      var cont = mk_map(ct, iskey ? t : T_INT, iskey ? T_INT : t, 3, 1, iskey);
+      var o = iskey ? map_find_key(cont, t, 3, std_fp(t), 0) : get(cont, K[int_other(1)]);
+      if (o) CPY(o); else { subj_init(&s, NULL, t, AllocHeap, K_OWN); not_obtained(&s, "the map did not hand out the entry that was set"); }
+      finish_cont();
     } else {
-      subj_init(&s, CUR, t, AllocHeap, K_OWN); s.mgmt = M_GC;
-      judge(&s, op);
-      finish_own(&s);
+      CPY(TY(t));                                /* a static type object: Type refuses to be copied (by design) */
     }
-    if (t != T_BOX && AUX) { var e2 = VF_CATCH(del(AUX)); (void)e2; }
-    AUX = NULL;
+#undef CPY
     break; }
   case S_STACK: {
 #define STK(expr) do { subj_init(&s, (expr), t, AllocStack, K_NONHEAP); judge(&s, op); } while (0)
@@ -1015,6 +1104,21 @@ static void fork_case(int src, int t, int v, int op) {
   }
 }
 
+/* Does copy() of a type-t original of class c hand out an object at all?  Asked of the library once per (c, t) in a forked child:
+   where it raises (Range, Slice, Zip: their Assign needs a constructed target; Type: by design) the half-built block that alloc()
+   registered stays behind as garbage whose destructor raises when it is swept - and an exception out of a sweep leaves the collector's
+   pending list in place, which stops every later collection of the process.  So such copies are never made in the exploring process. */
+static signed char copy_works[9][NTY];
+static void probe_fn(void* a) { struct fk* k = a; in_child = 1; probe_only = 1; run_case(k->src, k->t, k->v, k->op); _exit(15); }
+static int copy_probe(int c, int t) {
+  if (copy_works[c][t] == 0) {
+    struct fk k = { S_COPY, t, MKVAR(c, 3, 1) - (c == 0 ? MKVAR(0, 3, 1) : 0), OP_NONE };
+    struct vf_child r = vf_fork_run(probe_fn, &k, 20);
+    copy_works[c][t] = (r.exited && r.status == 0) ? 1 : -1;
+  }
+  return copy_works[c][t] > 0;
+}
+
 static int r_src = -1, r_t = -1, r_v = -1, r_op = -1;     /* replay filter */
 static uint64_t n_skipped_contract;
 
@@ -1023,8 +1127,10 @@ static void one(int src, int t, int v, int op) {
   if (vf.viol_total > 4000) { vf.exhaustive = 0; return; }
   int managed_own = src == S_NEW || src == S_NEW_ROOT || src == S_ALLOC || src == S_ALLOC_ROOT || src == S_COPY;
   if (op >= OP_DEL_STOPPED && !managed_own) return;
+  if (op == OP_DROP_COLLECT && !(src == S_NEW || src == S_ALLOC || src == S_COPY)) return;   /* only what the collector may reclaim */
   /* "they must be destructed with the corresponding deletion functions"; the raw variants do not go via the collector */
   if (managed_own && (op == OP_DEL_RAW || op == OP_DEALLOC_RAW || op == OP_DESTRUCT)) { n_skipped_contract++; return; }
+  if (src == S_COPY && !copy_probe(VAR_C(v), t)) { n_copy_unavailable++; vf.evaluations++; return; }
   if (vf_want_sample()) vf_sample("src=%s type=%s var=%d op=%s", srcname[src], tyname[t], v, opname[op]);
   if (managed_own && (is_dealloc_op(op) || op >= OP_DEL_STOPPED)) { fork_case(src, t, v, op); return; }
   /* anything the case raises outside the operation under test (building the container, walking it, reading values) */
@@ -1053,6 +1159,18 @@ static void enumerate_all(void) {
       for (int t = 0; t < NTY; t++) {
         if (src == S_COPY && t == T_MUTEX) continue;          /* a copied pthread mutex has no meaning */
         for (int op = 0; op < NOPS; op++) if (op_applies(t, op)) one(src, t, 0, op);
+      }
+    /* copy of an original of every allocation class (the forked collector-entry cases do not depend on the original) */
+    for (int c = 1; c <= 8; c++)
+      for (int t = 0; t < NTY; t++) {
+        if (c == 1 && !has_stack_literal(t)) continue;
+        if ((c == 2 || c == 3 || c == 4 || c == 5) && (!is_elem(t) || t == T_BOX)) continue;   /* copy and element would own one Box target */
+        if ((c == 6 || c == 7) && !is_key(t)) continue;
+        if (c == 8 && t != T_TYPE) continue;
+        for (int op = 0; op < NOPS; op++) {
+          if (!op_applies(t, op) || is_dealloc_op(op) || op >= OP_DEL_STOPPED) continue;
+          one(S_COPY, t, MKVAR(c, 3, 1), op);
+        }
       }
   }
   if (part_is("static")) {
